@@ -343,6 +343,7 @@ type test =
 | TEq of word * word
 | TNe of word * word
 | TPrefix of word * char list
+| TArgsLeft
 
 type cmd =
 | CAssign of char list * word
@@ -370,6 +371,8 @@ and branches =
 and arms =
 | ANil
 | ACons of char list * cmds * arms
+
+val capp : cmds -> cmds -> cmds
 
 val prefix_strip : char list -> char list -> char list option
 
@@ -552,8 +555,8 @@ type result0 = { r_exit : nat; r_st : state }
 
 val run_script : (nat -> bool) -> char list -> cmds -> state -> result0
 
-type config = { cf_filelist : nat; cf_release : bool; cf_entry : bool;
-                cf_calib : bool; cf_cvsroot : bool }
+type config = { cf_fl_dir : bool; cf_fl_local : bool; cf_release : bool;
+                cf_entry : bool; cf_calib : bool; cf_cvsroot : bool }
 
 val default_filelist : char list
 
@@ -561,7 +564,7 @@ val pkg_content : char list -> char list
 
 val opt_if : bool -> 'a1 -> 'a1 option
 
-val init_fs : char list list -> config -> fs
+val init_fs : char list list -> path list -> config -> fs
 
 val init_state : config -> fs -> char list list -> state
 
@@ -573,6 +576,16 @@ type invocation = { i_args : char list list; i_oracle : (nat -> bool);
                     i_nonce : char list }
 
 val run_history : cmds -> config -> fs -> invocation list -> result0 list
+
+val dest_slots : path list
+
+val run_dir_atlas : path
+
+val run_dir_cms : path
+
+val slots_atlas : path list
+
+val slots_cms : path list
 
 val pkg_atlas : char list list
 
@@ -594,13 +607,55 @@ val enc_result : result0 -> sexp
 
 val add_stale : fs -> (char list * char list) list -> fs
 
-val run_wire : cmds -> char list list -> sexp -> sexp
+val run_wire : cmds -> char list list -> path list -> sexp -> sexp
 
 val run_getopts : sexp -> sexp
 
+val script_pre : cmds
+
+val script_os : char list
+
+val script_var : char list
+
+val script_arms : arms
+
+val script_rest_of : (nat -> char list) -> cmds
+
+val heredocs : char list list
+
+val script_rest : cmds
+
 val script : cmds
 
+val script_pre0 : cmds
+
+val script_os0 : char list
+
+val script_var0 : char list
+
+val script_arms0 : arms
+
+val script_rest_of0 : (nat -> char list) -> cmds
+
+val heredocs0 : char list list
+
+val script_rest0 : cmds
+
 val script0 : cmds
+
+val script_pre1 : cmds
+
+val script_os1 : char list
+
+val script_var1 : char list
+
+val script_arms1 : arms
+
+val script_rest_of1 : (nat -> char list) -> cmds
+
+val heredocs1 : char list list
+
+val script_rest1 : cmds
 
 val script1 : cmds
 
